@@ -187,7 +187,7 @@ theorem C02_wrappers_are_source (C : WC) (s : OSt) :
         run C Generated.WrapProg.TraitChangeNotifyWrapper_notify_function_listener
             [.self, .object, .name, .id C.old, .id C.new] s
           = ofWrapper (callWrapper C.E C.t C.n C.loc C.old C.new s)
-        ∧ (∀ k, C.wrapName = some k →
+        ∧ (∀ k, C.wrapName = some k → C.ownerAlive = true →
             run C Generated.WrapProg.TraitChangeNotifyWrapper_notify_method_listener
               [.self, .object, .name, .id C.old, .id C.new] s
             = ofWrapper (callWrapper C.E C.t C.n C.loc C.old C.new s)))
@@ -201,7 +201,7 @@ theorem C02_wrappers_are_source (C : WC) (s : OSt) :
   ⟨Lemmas.WrapSource.change_accepted_is_source C C.old C.new s, Lemmas.WrapSource.prevent_event_is_source C s,
    Lemmas.WrapSource.static_call_is_source C s,
    fun h => ⟨Lemmas.WrapSource.notify_function_is_source C s h,
-             fun k hk => Lemmas.WrapSource.notify_method_is_source C s h k hk⟩,
+             fun k hk ha => Lemmas.WrapSource.notify_method_is_source C s h k hk ha⟩,
    Lemmas.WrapSource.dynamic_call_is_source C s, Lemmas.WrapSource.dispatch_change_event_is_source C s,
    Lemmas.WrapSource.observe_call_is_source C s⟩
 
@@ -215,6 +215,33 @@ theorem C02_wrapper_equals_is_source (C : WC) (s : OSt) :
     run C Generated.WrapProg.TraitChangeNotifyWrapper_equals [.self, Lemmas.WrapSource.candVal C.cand] s
       = (.ok (.bool (Lemmas.WrapSource.equalsSpec C)), s) :=
   Lemmas.WrapSource.equals_is_source C s
+
+open TraitsVerif.Model.PyW in
+/-- The rest of the wrapper layer's notification path.
+ 1. Dead owner: when the weak reference of a method wrapper no longer refers to its listener object, the wrapper calls
+    nobody (the handler log is untouched) and raises nothing; only `_change_accepted` ran.
+ 2. `listener_deleted` (the weak reference's callback) removes the wrapper from the notifier list it sits in — the
+    model's `removeSelf` — and raises nothing.
+ 3. Argument-count adaptation: the tuple built by `self.argument_transform(object, name, old, new)` consists of the
+    selected components of exactly those four values (`Val.tuple`), and the three `argument_transforms` tables — which
+    components a handler of arity 0…4 receives from an `on_trait_change` wrapper, a `_name_changed` wrapper and an
+    `_anytrait_changed` wrapper — are the source's: `old` and `new`, wherever they are passed, are the change the
+    wrapper was called with (the truthful-old/new clause for every arity). -/
+theorem C02_wrappers_rest_are_source (C : WC) (s : OSt) :
+    (C.ownerAlive = false →
+      run C Generated.WrapProg.TraitChangeNotifyWrapper_notify_method_listener
+          [.self, .object, .name, .id C.old, .id C.new] s
+        = (.ok .none, if C.old = uninit then s else s.ensureItrait))
+    ∧ run C Generated.WrapProg.TraitChangeNotifyWrapper_listener_deleted [.self, .weak] s
+        = (.ok .none, s.removeSelf C.n C.loc)
+    ∧ Generated.WrapProg.TraitChangeNotifyWrapper_argument_transforms
+        = [(0, []), (1, [.new]), (2, [.name, .new]), (3, [.obj, .name, .new]), (4, [.obj, .name, .old, .new])]
+    ∧ Generated.WrapProg.StaticTraitChangeNotifyWrapper_argument_transforms
+        = [(0, []), (1, [.obj]), (2, [.obj, .new]), (3, [.obj, .old, .new]), (4, [.obj, .name, .old, .new])]
+    ∧ Generated.WrapProg.StaticAnytraitChangeNotifyWrapper_argument_transforms
+        = [(0, []), (1, [.obj]), (2, [.obj, .name]), (3, [.obj, .name, .new]), (4, [.obj, .name, .old, .new])] :=
+  ⟨Lemmas.WrapSource.notify_method_dead C s, Lemmas.WrapSource.listener_deleted_is_source C s,
+   Lemmas.WrapSource.argument_transforms_are_source⟩
 
 /-! ### Exactly once -/
 
